@@ -311,3 +311,38 @@ ELEMENTS["ScheduleNTasksInTimeIntervals3"] = Element(
 ELEMENTS["ScheduleNTasksInTimeIntervals3"].assume = _NInIntervals.assume
 for _n in ("ScheduleNTasksInTimeIntervals", "ScheduleNTasksInTimeIntervals3"):
     ELEMENTS[_n].count_scheduled = True  # the clause itself counts scheduled tasks only
+
+
+# --- precedence between a task group and a task ------------------------------------------------------
+class _PrecedenceGroup:
+    """TaskPrecedence accepts a task group on either side: every member of the group is concerned."""
+
+    @staticmethod
+    def build(P, tis, kind="lax", side="before", window="interval", ordered=False, optional=False, **kw):
+        cls = ps.OrderedTaskGroup if ordered else ps.UnorderedTaskGroup
+        g = cls(name="grp", list_of_tasks=[tis[0].obj, tis[1].obj], **_group_kwargs(P, window))
+        kwargs = dict(name="cst", kind=kind, offset=P.int("c_offset", ph=1), optional=optional)
+        if side == "before":
+            return ps.TaskPrecedence(task_before=g, task_after=tis[2].obj, **kwargs)
+        return ps.TaskPrecedence(task_before=tis[2].obj, task_after=g, **kwargs)
+
+    @staticmethod
+    def must(P, tis, kind="lax", side="before", window="interval", ordered=False, **kw):
+        o = P.v("c_offset")
+        cl = []
+        # lax / strict bind every member; tight binds the group envelope, hence at least the inequality
+        k2 = "lax" if kind == "tight" else kind
+        for i in (0, 1):
+            if side == "before":
+                cl.append((f"member_{i}_before", _cmp(k2, tis[i].e + o, tis[2].s)))
+            else:
+                cl.append((f"member_{i}_after", _cmp(k2, tis[2].e + o, tis[i].s)))
+        cl += [(f"group_{n}", c) for n, c in _group_must(P, tis[:2], window)]
+        return cl
+
+
+ELEMENTS["TaskPrecedenceWithGroup"] = Element(
+    "TaskPrecedenceWithGroup", 3, _PrecedenceGroup.build, _PrecedenceGroup.must, None,
+    [dict(kind=k, side=sd, window=w, ordered=o) for k in ("lax", "strict", "tight") for sd in ("before", "after")
+     for w, o in (("interval", False), ("length", False), ("none", True))])
+ELEMENTS["TaskPrecedenceWithGroup"].skip_completeness = True
